@@ -17,6 +17,7 @@ typedef struct {
     unsigned pats, topics;               /* bitmask of subscription patterns / publish topics */
     unsigned kinds;                      /* bitmask of source kinds (G_SRC) */
     unsigned srcflags;                   /* bitmask of source flag combinations offered: bit f = flags value f (1 AUTOCLOSE, 2 ONESHOT, 4 DUP) */
+    int keylimit;                        /* keys per source kind (0 = the whole menu) */
 } profile_t;
 static profile_t P;
 
@@ -76,7 +77,7 @@ static int enabled_ops(op_t *o, int max) {
         if (P.groups & G_BECOME) { if (st == S_RUNNING || ill) { for (int h = 1; h <= 2; h++) if (m->nhs < 3) EMIT(O_BECOME, s, h); EMIT(O_UNBECOME, s); } }
         if (P.groups & G_BATCH) { for (int b = 0; b < 4; b++) if (BSZ[b] != m->batch_size || b == 0) EMIT(O_BATCH_SIZE, s, b);   /* re-setting 0 is generated too: it must be a no-op */ for (int t = 0; t < 2; t++) if (t != m->batch_tmo) EMIT(O_BATCH_TMO, s, t); }
         if (P.groups & G_SRC) for (int kd = 0; kd < NKIND; kd++) if (P.kinds & (1u << kd)) {
-            for (int key = 0; key < NKEYS[kd]; key++) {
+            for (int key = 0; key < (P.keylimit && P.keylimit < NKEYS[kd] ? P.keylimit : NKEYS[kd]); key++) {
                 int idx = find_src(s, kd, key);
                 if (kd == K_FD && !UFD[key].open_rd) continue;
                 if (kd == K_TASK && (st == S_RUNNING || st == S_ZOMBIE)) continue;          /* a task would start running on a pool thread: kept out of the sequential world */
@@ -85,7 +86,7 @@ static int enabled_ops(op_t *o, int max) {
                     if (idx >= 0 && (f & 4)) continue;
                     if ((f & 5) && kd != K_FD) continue;
                     if (kd == K_FD) { int others = 0, granted = 0; for (int t = 0; t < NM; t++) for (int i = 0; i < MAXSRC; i++) if (MD[t].src[i].present && MD[t].src[i].kind == K_FD && MD[t].src[i].key == key) { others++; granted |= MD[t].src[i].flags & 1; }
-                        if (idx < 0 && others > 0 && !(f & 4)) continue;      /* one epoll set cannot hold the same descriptor twice: only a duplicate can be shared */
+                        if (idx < 0 && others > 0) continue;      /* one user descriptor is given to one module at a time (one epoll set cannot hold it twice; two readers of one pipe race for its bytes) */
                         if (idx < 0 && ((f & 1) ? others > 0 : granted)) continue; }
                     EMIT(O_SRC_REG, s, kd * 16 + key, f);
                 }
@@ -94,7 +95,7 @@ static int enabled_ops(op_t *o, int max) {
             }
             if (P.groups & G_BADPARAM) EMIT(O_SRC_REG, s, kd * 16 + 15, 0);
         }
-        if ((P.groups & G_BUCKET)) for (int b = 0; b < 5; b++) if (TBCFG[b].rate != m->tb_rate || TBCFG[b].burst != m->tb_burst) EMIT(O_BUCKET, s, b);
+        if ((P.groups & G_BUCKET)) for (int b = 0; b < NTBCFG; b++) if (TBCFG[b].rate != m->tb_rate || TBCFG[b].burst != m->tb_burst) EMIT(O_BUCKET, s, b);
         if (P.groups & G_STASH) for (int k = 0; k < 5; k++) if (st == S_RUNNING || (ill && k == 0)) EMIT(O_UNSTASH, s, k);
         if ((P.groups & G_ARM) && dev < P.maxdev && m->present) for (int cb = 0; cb < NCB; cb++) if ((P.armcbs & (1u << cb)) && !m->armed[cb].act) {
             if (cb == CB_EVAL && !m->evalmode) continue;
@@ -161,7 +162,7 @@ static void fmt_op(op_t op, char *b, size_t cap) {
     case O_UNSTASH: snprintf(b, cap, "unstash(%s,%zu)", A, UNST[op.b % 5]); break;
     case O_SRC_REG: snprintf(b, cap, "src_register(%s,%s#%d%s%s%s)", A, KN[(op.b >> 4) % NKIND], op.b & 15, (op.d & 1) ? ",AUTOCLOSE" : "", (op.d & 2) ? ",ONESHOT" : "", (op.d & 4) ? ",DUP" : ""); break;
     case O_SRC_DEREG: snprintf(b, cap, "src_deregister(%s,%s#%d)", A, KN[(op.b >> 4) % NKIND], op.b & 15); break;
-    case O_BUCKET: snprintf(b, cap, "set_tokenbucket(%s,rate=%d,burst=%d)", A, TBCFG[op.b % 5].rate, TBCFG[op.b % 5].burst); break;
+    case O_BUCKET: snprintf(b, cap, "set_tokenbucket(%s,rate=%d,burst=%d)", A, TBCFG[op.b % NTBCFG].rate, TBCFG[op.b % NTBCFG].burst); break;
     case O_ARM: snprintf(b, cap, "arm(%s.%s: %s %d)", A, CBN[(op.b >> 5) & 3], AN[(op.b & 31) < A_MAX ? (op.b & 31) : 0], op.d); break;
     case O_READY: snprintf(b, cap, "make_readable(fd%d)", op.a); break;
     case O_ADVANCE: snprintf(b, cap, "advance(%luns)", (unsigned long)ADV[op.a & 3]); break;
@@ -185,7 +186,7 @@ static void canon(char *b, size_t cap) {
         AP("st"); for (int k = 0; k < m->nst; k++) { evrec_t *r = &EV[m->stash[k]]; AP("%d.%d,", r->kind, r->kind == 0 ? MSG[r->msg].sender + 1 : r->key); }
         AP("h"); for (int k = 0; k < m->nhs; k++) AP("%d", m->hs[k]);
         AP("src"); for (int k = 0; k < MAXSRC; k++) if (m->src[k].present) AP("%d.%d.%d.%d,", m->src[k].kind, m->src[k].key, m->src[k].flags, m->src[k].fired);
-        AP("tb%d.%d|", m->tb_rate, m->tb_burst);
+        AP("tb%d.%d.%d|", m->tb_rate, m->tb_burst, m->tb_prev);
     }
     AP("T"); for (int i = 0; i < 24; i++) if (MT[i].used) AP("%d.%d.%d.%lu,", MT[i].slot, MT[i].src, MT[i].armed, MT[i].armed ? (unsigned long)(MT[i].next - shim_now_ns) : 0ul);
     AP("U"); for (int i = 0; i < NUFD; i++) AP("%d.%d,", UFD[i].open_rd, UFD[i].bytes);
@@ -243,6 +244,18 @@ static void teardown(void) {
     if (ON(R_FD) && shim_open_lib_fds()) { int fd = -1; for (int i = 0; i < SHIM_MAXFD; i++) if (shim_fd[i].st == FD_LIB_OPEN && !shim_fd[i].user) { fd = i; break; }
         vfail("LG.fd", "LG.fd|leak", "%d descriptors opened by the library are still open after teardown (e.g. fd %d, kind %d)", shim_open_lib_fds(), fd, shim_fd[fd].kind); }
 }
+/* TB.bound probe: exhaust the bucket, let a little time pass with the loop dispatched, try again - every success is checked against burst + rate*t */
+static void tb_pressure(void) {
+    if (!ON(R_TB) || !CX.exists || !CX.looping) return;
+    for (int s = 0; s < NM; s++) if (MD[s].present && MD[s].st == S_RUNNING && MD[s].tb_rate > 0 && MD[s].tb_rate <= 1000 && !CX.quit) {
+        for (int k = 0; k < MD[s].tb_burst + 1; k++) do_api((op_t){O_TELL, s, s, 0});
+        for (int r = 0; r < 4; r++) {
+            do_api((op_t){O_ADVANCE, 0}); drain();
+            if (!(MD[s].present && MD[s].st == S_RUNNING && MD[s].tb_rate > 0) || CX.quit || !CX.looping) break;
+            for (int k = 0; k < 3; k++) do_api((op_t){O_TELL, s, s, 0});
+        }
+    }
+}
 /* TB.live: after at least one refill period of running time with the loop dispatched, a throttled module can act again */
 static void tb_liveness(void) {
     if (!ON(R_TB) || !CX.exists || !CX.looping) return;
@@ -254,7 +267,7 @@ static void tb_liveness(void) {
     }
 }
 static void run_probe(int i) {
-    if (i == 0) { drain(); check_quiescent_obligations(); tb_liveness(); drain(); teardown(); }
+    if (i == 0) { drain(); check_quiescent_obligations(); tb_pressure(); tb_liveness(); drain(); teardown(); }
     else { teardown(); }
 }
 #endif
